@@ -174,6 +174,25 @@ def log_family(ctx, rng):
                     if rng.random() < 0.4:
                         add(rng.choice(M.LATE_HEADER_KINDS))      # late header at the end of input
                 out.append((cfg, lines, files, blocks, sname + ":" + shape))
+    # a hunk header still pending at the commit line (an `@@` line no hunk line follows; not something git writes), under a raw
+    # hunk-header style and a raw commit style: the one state with an unhandled style a commit line can be met in under these
+    # configurations - the commit line must still put the machine into the commit block (header dropped, message passed through)
+    for k in range(ctx.n(2, 8)):
+        cfg = M.gen_cfg(rng, color_only=False)
+        cfg.d["fileRaw"] = 0; cfg.d["fileOmit"] = 0
+        cfg.d.update(dict(commitRaw=1, commitOmit=0, commitDeco=0, hhRaw=1, hhOmit=0, hhDeco=0))
+        files, lines, blocks = [], [], []
+        f = M.gen_file(rng, kind="modified", prefixes=("a/", "b/"))
+        f["first_line"] = 0
+        lines.extend(f["lines"]); files.append(f)
+        lines.append("@@ -200,2 +300,2 @@ dangling")
+        blocks.append((len(lines), 0))
+        lines.extend(gen_commit_block(rng, 0))
+        if k % 2:
+            g = M.gen_file(rng, kind=rng.choice(["modified", "renamed", "mode_only"]), prefixes=("a/", "b/"))
+            g["first_line"] = len(lines)
+            lines.extend(g["lines"]); files.append(g)
+        out.append((cfg, lines, files, blocks, "raw:pending-hunk-header-at-commit-line"))
     return out
 
 
